@@ -28,5 +28,10 @@ add("C06",
     "Trusted: fresh isolated objects as reference; documented-in-place methods are not generated; calls that only work after an earlier query set something up are not judged; ARPACK-based centralities and bookkeeping accessors are excluded.",
     "deterministic simulation: seeded query-order histories over shared objects with the cache-capacity knob, fresh-object reference",
     "DESIGN.md §4 C06")
-for _p in ("C05", "C15", "C17"):
+add("C05",
+    "Seeded search over chains of representation changes: a reference network (dense A, node weights, link-attribute matrices; edge cases edgeless / single link / trailing isolated nodes / directed / N=2) is pushed through 3-10 ops, each producing the next object from the previous one (dense, four sparse formats, edge list, set_edge_list, FromIGraph, copy, real save->Load in graphml / graphmlz / pickle / gml on a per-run scratch directory, for Network, SpatialNetwork, GeoNetwork and ClimateNetwork), and every observable of the statement is compared with the model after every step. One run in five injects write cuts with RLIMIT_FSIZE (short write / disk full) under a narrowly relaxed oracle: an acknowledged save that loads must load the same network. Sampling, not enumeration.",
+    "Trusted: the dense reference model; the real kernel file system; files are not corrupted after a successful save; an edge list without n_nodes is only generated when the last node has a link.",
+    "deterministic simulation with fault injection: seeded operation chains over a real scratch file system with RLIMIT_FSIZE write cuts, reference-model oracle",
+    "DESIGN.md §4 C05")
+for _p in ("C15", "C17"):
     PENDING[_p] = "in the family (DESIGN §4) but its check is not built yet in this commit; not claimed until it is"
